@@ -81,6 +81,13 @@ def gen_set(rnd, n):
         rules[j].match, rules[k].match = 'contains("%s")' % w1, 'contains("%s")' % w2
         rules[j].priority = rules[k].priority = None
     rf = R.RuleFile(variables=list(PREAMBLE), rules=rules)
+    if n >= 2 and rnd.random() < .3:
+        # a dynamic tag built from the rule's own let: binding, on a rule that is not the last one of the file
+        j = rnd.randrange(n - 1)
+        rules[j].lets = list(rules[j].lets) + [('ref', rnd.choice(['"tag-%d"' % j, 'lowercase(substring(description, 0, 4))']))]
+        rules[j].tags = list(rules[j].tags) + ['{ref}']
+        if rnd.random() < .5:
+            rules[-1].lets = list(rules[-1].lets) + [('ref', '"last-rule"')]
     if n >= 2 and rnd.random() < .25:
         # a rule re-binds a GLOBAL variable with let: - the new value is that rule's alone, whatever the order of the rules
         rf.variables = list(rf.variables) + [('lim', rnd.choice(['500', '99.99', '1e9']))]
@@ -204,7 +211,17 @@ def judge_set(rec, rf, txns, rows, tmp, rnd, max_full, nsample):
     # config path (get_all_rules caches one engine per process, so load and use one file at a time)
     for j, (o, prf, _) in enumerate(engs[:2]):
         p = O.write(os.path.join(tmp, 'm%d.rules' % j), R.render(prf))
-        prules, ptrans = O.production_load(p, 'most_specific')
+        if j == 1:
+            # the same unchanged file was read in the default mode a moment ago (another command, a comparison run): the mode asked for now decides
+            from tally import merchant_utils as _mu, merchant_engine as _me
+            try:
+                from pathlib import Path as _P
+                _me.load_merchants_file(_P(p))
+                _mu.get_transforms(p)
+            except Exception:
+                pass
+            rec.count('loads_in_other_mode_first')
+        prules, ptrans = O.production_load(p, 'most_specific', clear=(j != 1))
         for txn in txns:
             case = dict(case0, txns=[O.jtxn(txn)])
             try:
